@@ -874,6 +874,71 @@ func longPark(park time.Duration) (sig, what string, stall time.Duration, inconc
 	return "", "", 0, ""
 }
 
+// expiryEdge (inmem, real clock): waiters start within a few microseconds around the instant their record expires
+// (each on a key of its own, so nobody wakes anybody; nothing else touches the keys). Whether a waiter still
+// found the record alive or not, once the record has expired it has to come back with ErrNotExist by itself:
+// 25 ms after the expiry (healthy: about 1 ms; canary-guarded) the waiter table must be empty and every waiter must have returned.
+func expiryEdge(seed int64, rounds int) (sig, what string, stall time.Duration) {
+	var worst atomic.Int64
+	stop := make(chan struct{})
+	go func() {
+		for {
+			select {
+			case <-stop:
+				return
+			default:
+			}
+			t := time.Now()
+			time.Sleep(2 * time.Millisecond)
+			if o := int64(time.Since(t) - 2*time.Millisecond); o > worst.Load() {
+				worst.Store(o)
+			}
+		}
+	}()
+	defer func() { close(stop); stall = time.Duration(worst.Load()) }()
+	bg := context.Background()
+	rng := rand.New(rand.NewSource(seed))
+	const n = 12
+	for r := 0; r < rounds; r++ {
+		s := inmem.New()
+		at := time.Now().Add(3 * time.Millisecond)
+		vers := make([]string, n)
+		for i := 0; i < n; i++ {
+			rec, err := s.Put(bg, kvs.Record{Key: fmt.Sprintf("edge/%d", i), Value: []byte("e"), ExpiresAt: &at})
+			if err != nil {
+				return "inmem/Put/error", err.Error(), 0
+			}
+			vers[i] = rec.Version
+		}
+		// the start offsets sweep -8 us .. +1 us around the expiry in 100 ns steps over 80 rounds (where the narrow
+		// band lies in which a call straddles the expiry depends on the machine)
+		base := -8*time.Microsecond + time.Duration(r%80)*100*time.Nanosecond + time.Duration(rng.Intn(50))*time.Nanosecond
+		res := make(chan error, n)
+		ctx, cancel := context.WithTimeout(bg, 5*time.Second)
+		for i := 0; i < n; i++ {
+			go func(i int) {
+				start := at.Add(base + time.Duration(i)*100*time.Nanosecond)
+				for time.Now().Before(start) {
+				}
+				res <- s.WaitForVersionChange(ctx, fmt.Sprintf("edge/%d", i), vers[i])
+			}(i)
+		}
+		time.Sleep(time.Until(at) + 25*time.Millisecond)
+		table := inmem.VerifWaiters(s)
+		returned := len(res)
+		cancel()
+		for i := 0; i < n; i++ {
+			if e := <-res; e != nil && !errors.Is(e, gerrors.ErrNotExist) && returned == n {
+				return "inmem/wait/wrong-result-at-expiry", fmt.Sprintf("a waiter that started around the expiry of its record returned %v", e), 0
+			}
+		}
+		if returned < n || len(table) != 0 {
+			return "inmem/wait/parked-on-expired-key", fmt.Sprintf("round %d: %d waiters started within -8..+1 us of the expiry of their records (one key each, nothing else touches the keys); 25 ms after the expiry %d of them have not returned and the waiter table still holds %v", r, n, n-returned, table), 0
+		}
+	}
+	return "", "", 0
+}
+
 // pollFault (Redis): one poll of a parked waiter is answered with a server error while nothing changes and the
 // context is alive. Whatever the waiter does with the error (report it, or go on polling), it must not return nil
 // ("the key exists with a different version") nor ErrNotExist nor the context's error.
@@ -989,10 +1054,34 @@ func TestCheck(t *testing.T) {
 		}
 		run.Finish(t)
 	})
-	run.Rule("scripted: every legal script to the depth bound over {start waiter (key1 cur/stale/unknown, key2 cur; <=3 alive), cancel waiter i, cancel+Put+newcomer without quiescence in between, start+Put without quiescence, Put k1/k2, PutMany k1 / k1+k2, CAS ok, CAS conflict, Delete k1/k2, Create, Put with an expiry, Put of an already expired record, clock +1 h (nobody touches the store)}; every other waiter carries a context deadline 1000 virtual hours ahead; Redis poll fault: the 1st/2nd/5th/9th poll of a parked waiter is answered with a server error - the waiter may report it or go on, but must not return nil, ErrNotExist or the context's error from 2 initial states, in a synctest bubble; after EVERY event quiescence, then each waiter must be exactly parked / nil / ErrNotExist / ctx error per model and the waiter table must equal the parked set; free-running: 3 writers + 6 waiters + cancellers on 2 keys per round, waiter returns checked by porcupine as read-like operations, final mutation must release all; burst rounds: 4-16 waiters on the current version start together with one mutation and must all return; Redis long-park: a waiter parked 3.2 s (6.5 s thorough) must notice the change within 1 s. distinct = distinct (event kind, parked-waiter multiset, number of present keys) classes observed at quiescent points + distinct free-running rounds")
+	run.Rule("scripted: every legal script to the depth bound over {start waiter (key1 cur/stale/unknown, key2 cur; <=3 alive), cancel waiter i, cancel+Put+newcomer without quiescence in between, start+Put without quiescence, Put k1/k2, PutMany k1 / k1+k2, CAS ok, CAS conflict, Delete k1/k2, Create, Put with an expiry, Put of an already expired record, clock +1 h (nobody touches the store)}; every other waiter carries a context deadline 1000 virtual hours ahead; expiry edge (inmem, real clock): trains of 12 waiters, one key each, started within microseconds around the expiry of their records - 25 ms later all have returned and the waiter table is empty (this part runs as a second pass built without the race detector, whose slow-down hides such windows); Redis poll fault: the 1st/2nd/5th/9th poll of a parked waiter is answered with a server error - the waiter may report it or go on, but must not return nil, ErrNotExist or the context's error from 2 initial states, in a synctest bubble; after EVERY event quiescence, then each waiter must be exactly parked / nil / ErrNotExist / ctx error per model and the waiter table must equal the parked set; free-running: 3 writers + 6 waiters + cancellers on 2 keys per round, waiter returns checked by porcupine as read-like operations, final mutation must release all; burst rounds: 4-16 waiters on the current version start together with one mutation and must all return; Redis long-park: a waiter parked 3.2 s (6.5 s thorough) must notice the change within 1 s. distinct = distinct (event kind, parked-waiter multiset, number of present keys) classes observed at quiescent points + distinct free-running rounds")
 	run.Assume("scripted part: virtual time that only moves at the explicit clock event")
 	run.Assume("free-running 'never misses' uses a 20 s watchdog against a healthy release time of microseconds (inmem) / <=100 ms (Redis polling)")
 
+	if os.Getenv("VERIF_PASS") == "norace" {
+		// second pass, built without the race detector, with the processors to itself: the expiry-edge trains
+		for i := 0; i < run.Pick(2, 6); i++ {
+			for attempt := 1; ; attempt++ {
+				sig, what, stall := expiryEdge(run.Seed()*131+int64(i), run.Pick(160, 1600))
+				if sig == "inmem/wait/parked-on-expired-key" && stall > 8*time.Millisecond {
+					if attempt < 3 {
+						continue
+					}
+					run.Inconclusive(fmt.Sprintf("%s (canary stall %v)", what, stall))
+					break
+				}
+				run.Eval(1)
+				run.DistinctAdd(1)
+				run.Add("expiry_edge_scenarios", 1)
+				if sig != "" {
+					run.Violation(sig, what, map[string]any{"scenario": "expiry-edge", "backend": "inmem", "seed": run.Seed()*131 + int64(i)})
+				}
+				break
+			}
+		}
+		run.DistinctAdd(1)
+		return
+	}
 	if p := os.Getenv("VERIF_REPLAY"); p != "" {
 		replay(t, run, p)
 		return
